@@ -7,6 +7,8 @@
 (*   - the messages handed over for sending (Queue) and the messages that  *)
 (*     reach a handler on the far side (Delivered),                        *)
 (*   - peer_connected / peer_disconnected callbacks, disconnect_socket,    *)
+(*   - every other callback of the channel / routing / onion / custom      *)
+(*     message handlers for a message of the peer (HandlerCall),           *)
 (*   - what the network did to the bytes in flight (Tamper).               *)
 (* Nothing about PeerManager's buffers, its send_data chunking, nonces or   *)
 (* keys appears here.  Side 1 is the initiator; stream d is the byte       *)
@@ -139,7 +141,10 @@ RawSend(s, kind, id, size, len) ==
   /\ tub' = [tub EXCEPT ![s] = IF garbage THEN MinDef(@, gtub) ELSE @]
   \* "short"/"junk": well-formed frames that are no test message (empty message, ping, unknown type,
   \* undecodable gossip ...): the node may answer, ignore or disconnect, it must not panic
-  /\ dirty' = (dirty \/ garbage \/ (isMsg /\ initend[s] = -1) \/ kind \in {"short", "junk"})
+  \* "typed": a well-formed message of a standard type that has no one-to-one handler callback (ping,
+  \* pong, warning, error, start_batch and the commitment_signed of a batch, gossip_timestamp_filter,
+  \* unknown odd / even types): what the node does with it after Init is not judged here either
+  /\ dirty' = (dirty \/ garbage \/ (isMsg /\ initend[s] = -1) \/ kind \in {"short", "junk", "typed"})
   /\ UNCHANGED <<mode, up, given, extra, mustdrop, initrx, reading, viol>>
 
 (* the network modified stream d at offset off (not yet handed to the receiver); n bytes inserted *)
@@ -178,6 +183,16 @@ Delivered(s, id, size, ok) ==
                   ~untampered, "TamperDisconnects")
   /\ queued' = [queued EXCEPT ![d] = IF k = 0 THEN @ ELSE SubSeq(@, k + 1, Len(@))]
   /\ UNCHANGED <<mode, up, slen, hw, given, extra, qend, tamp, tub, mustdrop, initrx, initend, fends,
+                 reading, dirty>>
+
+(* A handler of side s (channel / routing / onion / custom message handler) was called back for a  *)
+(* message of the peer in a way that is not reported as Delivered (handle_error, the channel        *)
+(* handler's copy of a channel_update, handle_commitment_signed_batch, ...).  Nothing a peer sends  *)
+(* is acted on before its Init has been received (and nothing after the handlers were told that    *)
+(* the peer is gone).                                                                              *)
+HandlerCall(s) ==
+  /\ viol' = Flag(viol, ~initrx[s], "InitFirst")
+  /\ UNCHANGED <<mode, up, slen, hw, given, extra, queued, qend, tamp, tub, mustdrop, initrx, initend, fends,
                  reading, dirty>>
 
 (* read_event returned.  Ok although a tampered unit has been handed over completely breaks     *)
